@@ -281,6 +281,15 @@ def check_C12(cx):
                  for _ in range(n)]
         hists.append(hist_for(calls, 0, 1 if two else None))
     ops, out = tie_api_mod_lf(cx, impl, hists, "C12 setter histories (model setters + implementation's own per-line results)")
+    # The model's setters are PROVED to implement the documented table (refines_abs) and the probe
+    # bytes come from the implementation's own per-line results for the model's option byte, so a
+    # mismatch on a probe means: after this history the implementation is not in the documented state.
+    for b in list(cx.broken):
+        if "op_index" in b and b.get("op", "")[:1] in "AD":
+            cx.violations.append({"kind": "setter-state", "what": "after this setter history the probe lines assemble differently from "
+                                  "the documented option state (SMART/NASM/NASM + documented transitions)",
+                                  "history": history_around(ops, b["op_index"]), "impl": b["impl"][:120], "documented": b["model"][:120]})
+            break
     cx.cov["samples"] = [hists[0], hists[min(50, len(hists) - 1)], hists[-1]]
     cx.nontrivial.update(tuple(h) for h in hists)
     cx.dist = {"exhaustive_sequences_up_to_len": maxlen, "exhaustive_count": nseq, "random_histories": len(hists) - nseq}
@@ -784,20 +793,27 @@ def check_C15(cx):
     bad = [b"bogus", b"mov rax, rbx\nmov rax, [rbx\nret", b"add rax, rbx, rcx, rdx, rsi", b"nop11 word -1\nimul r9, word [0x10+4*r13], 0x8000000000000000"]
     alphabet = (["A %s" % cases.hexs(t) for t in good] + ["A %s" % cases.hexs(t) for t in bad] +
                 ["C 5 %s 1" % cases.hexs(good[0]), "C 0 %s 1" % cases.hexs(good[1]), "C 7 %s 0" % cases.hexs(good[0]),
-                 "C 3 %s 1" % cases.hexs(bad[1]), "K 8", "K 0", "S all 0", "S mov 1", "S sib 0", "O 3", "O 60",
+                 "C 3 %s 1" % cases.hexs(bad[1]), "K 8", "K 16", "K 0", "S all 0", "S mov 1", "S sib 0", "O 3", "O 60",
                  "OTHER"])
-    finals = [("A", good[3]), ("A", good[1]), ("A", bad[1]), ("C", good[2])]
+    finals = [("A", good[3]), ("A", good[1] + b"\nmov rax, 0x1122334455667788\nret"), ("A", bad[1]), ("C", good[2])]
     import itertools
     hists, meta = [], []
     maxlen = 3 if cx.tier == "thorough" else 2
 
     def build(seq, setting, fin, k, n=160):
-        mov, swap, nb, chunk = setting
-        explicit = ["S 0 mov %d" % mov, "S 0 swap %d" % swap, "S 0 nobase %d" % nb, "K 0 %d" % chunk, "O 0 %d" % k]
+        """history + final block on instance 0, then the twin: a fresh instance that only gets the
+        history's SETTING calls (setters, chunk size) — assemblies, counting calls, failures and
+        offset moves must not matter — and the same final block.  With `setting` given, the final
+        block additionally re-sets every option and the chunk size explicitly."""
         kind, text = fin
         call = ("A 0 %s" % cases.hexs(text)) if kind == "A" else ("C 0 6 %s 1" % cases.hexs(text))
-        tail = explicit + [call, "G 0", "D 0 %d %d" % (k, n), "A 0 %s" % cases.hexs(b"ret"), "G 0"]
+        explicit = []
+        if setting is not None:
+            mov, swap, nb, chunk = setting
+            explicit = ["S 0 mov %d" % mov, "S 0 swap %d" % swap, "S 0 nobase %d" % nb, "K 0 %d" % chunk]
+        tail = explicit + ["O 0 %d" % k, call, "G 0", "D 0 %d %d" % (k, n), "A 0 %s" % cases.hexs(b"ret"), "G 0"]
         h = ["N 0 %d %02x" % (n, r.choice([0, 0xcc, 0xff]))]
+        twin = []
         for op in seq:
             if op == "OTHER":
                 # another instance is created, used and destroyed meanwhile
@@ -805,47 +821,50 @@ def check_C15(cx):
             else:
                 parts = op.split(" ", 1)
                 h.append(parts[0] + " 0 " + parts[1])
-        h += tail + ["F 0", "N 0 %d %02x" % (n, 0x5a)] + tail + ["F 0"]
-        return h, len(tail)
+                if parts[0] in ("S", "K"):
+                    twin.append(parts[0] + " 0 " + parts[1])
+        h += tail + ["F 0", "N 0 %d %02x" % (n, 0x5a)] + twin + tail + ["F 0"]
+        return h, len(tail), len(explicit)
     settings = [(2, 1, 1, 0), (0, 0, 0, 8), (1, 1, 0, 5)]
     for n in range(0, maxlen + 1):
         for seq in itertools.product(alphabet, repeat=n):
             si = (len(hists)) % len(settings)
             fin = finals[len(hists) % len(finals)]
             k = [0, 5, 17][len(hists) % 3]
-            h, tl = build(seq, settings[si], fin, k)
+            h, tl, ne = build(seq, settings[si] if len(hists) % 2 else None, fin, k)
             hists.append(h)
-            meta.append(tl)
+            meta.append((tl, ne))
     nex = len(hists)
     for _ in range(300 if cx.tier == "quick" else 3000):
         seq = [r.choice(alphabet) for _ in range(r.choice([4, 6, 10]))]
         setting = (r.choice([0, 1, 2]), r.choice([0, 1]), r.choice([0, 1]), r.choice([0, 1, 2, 5, 8, 16]))
         fin = (r.choice(["A", "C"]), b"\n".join(r.choice(pool) for _ in range(r.choice([1, 3, 5]))))
-        h, tl = build(seq, setting, fin, r.choice([0, 1, 9, 40]))
+        h, tl, ne = build(seq, setting if r.random() < 0.4 else None, fin, r.choice([0, 1, 9, 10, 13, 40]))
         hists.append(h)
-        meta.append(tl)
+        meta.append((tl, ne))
     ops, out = tie_api_mod_lf(cx, impl, hists, "C15 histories vs fresh instance")
     pos, nviol = 0, 0
-    for tl, h in zip(meta, hists):
+    for (tl, ne), h in zip(meta, hists):
         o = out[pos:pos + len(h)]
         pos += len(h)
         if len(o) < len(h):
             break
-        # outputs of the final block after the history vs on the fresh instance (skip the 5 'ok's of the explicit settings)
-        used = list(o[len(h) - 2 * tl - 3: len(h) - tl - 3])
+        # outputs of the final block after the history vs on the fresh twin
         fresh = list(o[len(h) - tl - 1: len(h) - 1])
+        first_f = len(h) - 1 - h[::-1].index("F 0", 1)   # the F that ends the history instance
+        used = list(o[first_f - tl: first_f])
         # compare the dumped bytes only from the starting offset up to the new offset (what lies
         # behind it is the caller's old buffer contents, which differ on purpose)
-        kk = int(h[len(h) - tl - 1 + 4].split()[2])
+        kk = int(h[len(h) - 1 - tl + ne].split()[2])
         for blk in (used, fresh):
             try:
-                newoff = int(blk[6])
-                blk[7] = blk[7][: max(0, 2 * (newoff - kk))]
+                newoff = int(blk[ne + 2])
+                blk[ne + 3] = blk[ne + 3][: max(0, 2 * (newoff - kk))]
             except ValueError:
                 pass
         if used != fresh and nviol < 5:
             nviol += 1
-            cx.violations.append({"kind": "history", "after_history": used[5:], "fresh": fresh[5:],
+            cx.violations.append({"kind": "history", "after_history": used[ne:], "fresh": fresh[ne:],
                                   "what": "the same call with the same options, chunk setting and offset behaves differently after this history "
                                           "than on a fresh instance", "history": [x[:200] for x in h]})
     cx.nontrivial.update(tuple(h) for h in hists)
